@@ -339,3 +339,40 @@ Section F7.
     PrimFloat.eqb f7_ps f7_fc = false.
   Proof. vm_compute. repeat split. Qed.
 End F7.
+
+(* ------------------------------------------------------------------ *)
+(* Input with PTF = 0: the route is chosen per horizon; the first layer and WRED both come from the first horizon *)
+
+Lemma file_first_layer (n : nat) (h : fhorizon (T:=R)) (r : list fhorizon) (grw : R) :
+  (0 < n)%nat -> (0 < snd (file_horizon grw h))%Z ->
+  let p := file_params n (h :: r) grw in
+  let l := fst (file_horizon grw h) in
+  nth 0 (P_w p) 0 = l_w l /\ nth 0 (P_wmin p) 0 = l_wmin l /\ nth 0 (P_porges p) 0 = l_porges l /\
+  P_wred p = file_wred grw h.
+Proof.
+  intros Hn Hu p l. unfold p, file_params, params_of, layers. cbn [map expand P_w P_wmin P_porges P_wred].
+  destruct (file_horizon grw h) as [lp ukt] eqn:E. cbn [fst snd] in *. subst l.
+  rewrite Z.sub_0_r. destruct (Z.to_nat ukt) as [|k] eqn:Ek; [lia|]. destruct n as [|n']; [lia|].
+  cbn [repeat app firstn map nth]. auto.
+Qed.
+
+(* the threshold lies strictly between WMIN[0] and W[0] whichever route the first horizon takes: explicit values (any stone
+   content: neither the parameters nor the threshold are scaled) need WP < FC; the table route needs what the generated
+   table obligation gives (C15_table_wred_between, every stone fraction) *)
+Lemma wred_between_file_route (n : nat) (t : texture) (fk nfk pv : Z) (c st : R) (ukt : Z) (fka wp gpv : R)
+  (r : list (fhorizon (T:=R))) (grw : R) :
+  let h : fhorizon (T:=R) := ((t, (fk, nfk, pv), c, st, ukt), (fka, wp, gpv)) in
+  (0 < n)%nat -> (0 < ukt)%Z ->
+  (if Rlt_dec 0 fka then wp < fka
+   else let ho := hydro t fk nfk pv grw c st in let p := route_table ho st in l_wmin p < ho_wred ho < l_w p) ->
+  let p := file_params n (h :: r) grw in
+  nth 0 (P_wmin p) 0 < P_wred p < nth 0 (P_w p) 0.
+Proof.
+  intros h Hn Hu H p.
+  destruct (file_first_layer n h r grw Hn) as (E1 & E2 & _ & E4).
+  { unfold h, file_horizon. cbn [snd]. exact Hu. }
+  cbv zeta in E1, E2, E4. unfold p. rewrite E1, E2, E4. unfold h, file_horizon, file_wred. cbn [fst]. rsimp. unfold RI.ltb.
+  destruct (Rlt_dec 0 fka).
+  - apply wred_explicit_lemma. exact H.
+  - exact H.
+Qed.
